@@ -311,7 +311,8 @@ mutual
     | .mk k fs l i d =>
       if st.err.isSome then (st, .mk k fs l i d)
       else if k == "FunctionDef" then visitFunctionDef st (.mk k fs l i d)
-      else if !st.replaced && l == some st.search then ({ st with replaced := true }, st.repl)
+      -- (fix: a string constant carries a location too; it is never what a search addresses)
+      else if !st.replaced && l == some st.search && k != "Constant" then ({ st with replaced := true }, st.repl)
       else
         let (st', fs') := visitFields st fs
         (st', .mk k fs' l i d)
